@@ -51,9 +51,24 @@ class StmtMixin:
 
     # ----------------------------------------------------------- assignment
     def ex_Assign(self, s):
-        val = self.ev(s.value)
+        val = self.ev_hinted(s.value, self.list_hint(s.targets[0]) if len(s.targets) == 1 else None)
         for tgt in s.targets:
             self.assign(tgt, val)
+
+    def list_hint(self, tgt):
+        '''Element type of a list literal assigned to a local whose (widened) type the contract declares.'''
+        fsx = self.frame.fspec
+        if isinstance(tgt, ast.Name) and fsx is not None and tgt.id in fsx.d.get('locals', {}):
+            from .types import parse_type
+            t = parse_type(fsx.d['locals'][tgt.id])
+            if isinstance(t, TList):
+                return t.elem
+        return None
+
+    def ev_hinted(self, node, elem_t):
+        if elem_t is not None and isinstance(node, ast.List):
+            return self.mk_list([self.ev(e) for e in node.elts], elem_t)
+        return self.ev(node)
 
     def ex_AnnAssign(self, s):
         if s.value is not None:
@@ -62,7 +77,7 @@ class StmtMixin:
     def ex_AugAssign(self, s):
         load = self.as_load(s.target)
         cur = self.ev(load)
-        rhs = self.ev(s.value)
+        rhs = self.ev_hinted(s.value, self.list_hint(s.target))
         self.assign(s.target, self.binop(s.op, cur, rhs))
 
     def as_load(self, tgt):
@@ -366,6 +381,21 @@ class StmtMixin:
                 for fn, ft in sc.fields.items():
                     self.heap_arr((sname, fn), ft)
             ghosts = set(ghosts) | set(self.st.ghost.keys())
+        for ent in fields:
+            if isinstance(ent, tuple) and len(ent) == 5 and ent[0] == '@obj' and '*' not in fields:
+                _t, sname, fn, recv, lname = ent
+                key = (sname, fn)
+                if fn in fields or key in fields:
+                    continue
+                if lname in locs:
+                    # the receiver variable is itself assigned in the loop: not one fixed object
+                    arr = self.heap_arr(key, self.spec.schemas[sname].fields[fn])
+                    self.st.heap[key] = z3.Const(fresh_name('H_%s_%s' % key), arr.sort())
+                    continue
+                ft = self.spec.schemas[sname].fields[fn]
+                arr = self.heap_arr(key, ft)
+                cell = z3.Const(fresh_name('Hc_%s_%s' % key), arr.sort().range())
+                self.st.heap[key] = z3.Store(arr, recv, cell)
         for key in list(self.st.heap.keys()):
             if '*' in fields or key[1] in fields or key in fields:
                 self.st.heap[key] = z3.Const(fresh_name('H_%s_%s' % key), self.st.heap[key].sort())
@@ -423,10 +453,33 @@ class StmtMixin:
 
         # mutation of the iterated container inside the body is outside the model
         self.loop_iter_guard.append((it, seq))
+        # ... and when the iterated list is a live view into an object (contract flag live_view), the body
+        # must not call anything that mutates that object's index (checked at those calls)
+        live = self.live_view_receiver(s.iter)
+        if live is not None:
+            self.live_views.append(live)
         try:
             self.cut_loop(ordn, ls, s.body, cond=cond, setup=setup, after_body=after_body)
         finally:
             self.loop_iter_guard.pop()
+            if live is not None:
+                self.live_views.pop()
+
+    def live_view_receiver(self, node):
+        '''for x in recv.m(...): when the contract of m says it returns a live view of recv's internals.'''
+        if not (isinstance(node, ast.Call) and isinstance(node.func, ast.Attribute)):
+            return None
+        try:
+            recv = self.ev(node.func.value)
+        except Unsupported:
+            return None
+        if not isinstance(recv.t, TRef):
+            return None
+        for key, fs in self.spec.funcs.items():
+            if key.endswith('.' + node.func.attr) and fs.d.get('live_view') and fs.self_type and \
+                    self.spec.schema_of_type(recv.t) in fs.self_type:
+                return (recv, fs.key)
+        return None
 
     def iter_seq(self, it):
         t = it.t
